@@ -33,7 +33,9 @@ import (
 //              the payloads of the complete DATA frames a boring reference
 //              frame parser finds in the sent bytes (plus, at most, a prefix
 //              of a final DATA payload cut by FIN) — never a byte of a frame
-//              header or of another frame's payload;
+//              header or of another frame's payload; this holds for ALL bytes
+//              the body ever returns, also from Reads the application issues
+//              after the body has returned an error (read-after-error);
 //   skip       frames of unknown type are skipped wherever they appear;
 //   truncated  a frame whose payload is cut by FIN, or a SETTINGS frame whose
 //              content runs over its declared length, surfaces as an
@@ -84,6 +86,10 @@ var c35Kinds = map[string]c35Kind{
 		return c35RespSection
 	}},
 	"T":  {"T", c35TypeHeaders, c35Fixed(c35TrailerSection...)},
+	// HEADERS whose field section is refused at its first byte (Required
+	// Insert Count 1 with an empty dynamic table), the rest of the payload
+	// still unread at that point.
+	"Tx": {"Tx", c35TypeHeaders, c35Fixed(0x01, 0x00, 0xf1, 0xf2)},
 	"D0": {"D0", c35TypeData, c35Fixed()},
 	"D1": {"D1", c35TypeData, func(_ string, pos int) []byte { return []byte{byte(0x41 + pos)} }},
 	"D5": {"D5", c35TypeData, func(_ string, pos int) []byte {
@@ -129,6 +135,10 @@ type c35StreamCase struct {
 	Fin      int      `json:"fin_at_byte"`
 	Bytewise bool     `json:"one_packet_per_byte"`
 	Tail     bool     `json:"last_byte_in_the_packet_carrying_fin"`
+	// After: the application keeps calling Body.Read after the first error
+	// (io.EOF included): len(Seq)+1 further Reads, whatever they return, with
+	// buffers of these sizes in turn (cyclically). Empty: it stops reading.
+	After []int `json:"buffer_sizes_of_reads_after_first_error,omitempty"`
 }
 
 func (x c35StreamCase) bytes() []byte {
@@ -144,6 +154,23 @@ func (x c35StreamCase) bytes() []byte {
 		b = append(b, p...)
 	}
 	return b
+}
+
+// headEnd returns the byte offset at which the message head ends if the
+// sequence has the shape (unknown or HTTP/2-reserved frame)* H ..., else -1: the
+// cases in which there can be a body to read.
+func (x c35StreamCase) headEnd() int {
+	for i, k := range x.Seq {
+		switch {
+		case k == "H":
+			y := x
+			y.Seq = x.Seq[:i+1]
+			return len(y.bytes())
+		case k[0] != 'U' && k[0] != 'R':
+			return -1
+		}
+	}
+	return -1
 }
 
 // ------------------------------------------------- reference frame parser
@@ -301,6 +328,16 @@ func c35AllDataBytes(b []byte) []byte {
 	return out
 }
 
+// c35IsSubsequence reports whether a can be obtained from b by deleting bytes.
+func c35IsSubsequence(a, b []byte) bool {
+	for _, x := range b {
+		if len(a) > 0 && a[0] == x {
+			a = a[1:]
+		}
+	}
+	return len(a) == 0
+}
+
 // ------------------------------------------------------------ observation
 
 type c35Obs struct {
@@ -309,6 +346,8 @@ type c35Obs struct {
 	body       []byte // bytes the body reader delivered
 	bodyErr    error  // final Read error (io.EOF on clean end)
 	livelock   bool   // body reader returned (0, nil) 10000 times in a row
+	again      []c35Again // results of the Reads issued after bodyErr
+	afterBody  []byte     // bytes those Reads delivered
 	rtErr      error  // client: RoundTrip error
 	panicked   string // panic recovered inside the handler / reader goroutine
 	peerData   []byte // what the raw peer read from its side of the stream
@@ -317,7 +356,16 @@ type c35Obs struct {
 	harnessErr string
 }
 
-func c35ReadBody(r io.Reader, o *c35Obs) {
+// c35Again is the result of one Read issued after the body's first error.
+type c35Again struct {
+	size, n int
+	err     error
+}
+
+// c35ReadBody reads r with a 3-byte buffer up to its first error and then, if
+// after is not empty, issues nAfter more Reads with buffers of the sizes in
+// after (cyclically), whatever they return.
+func c35ReadBody(r io.Reader, o *c35Obs, after []int, nAfter int) {
 	buf := make([]byte, 3)
 	idle := 0
 	for {
@@ -325,6 +373,12 @@ func c35ReadBody(r io.Reader, o *c35Obs) {
 		o.body = append(o.body, buf[:n]...)
 		if err != nil {
 			o.bodyErr = err
+			for i := 0; len(after) > 0 && i < nAfter; i++ {
+				p := make([]byte, after[i%len(after)])
+				n, err := r.Read(p)
+				o.again = append(o.again, c35Again{len(p), n, err})
+				o.afterBody = append(o.afterBody, p[:n]...)
+			}
 			return
 		}
 		if n == 0 {
@@ -337,6 +391,30 @@ func c35ReadBody(r io.Reader, o *c35Obs) {
 			idle = 0
 		}
 	}
+}
+
+func c35AgainString(a []c35Again) string {
+	var s []string
+	for _, r := range a {
+		s = append(s, fmt.Sprintf("Read(%d bytes)=(%d, %v)", r.size, r.n, r.err))
+	}
+	return fmt.Sprint(s)
+}
+
+// c35AgainClass classifies the Reads after the first error (recorded, not judged).
+func c35AgainClass(o *c35Obs) string {
+	first := c35ErrClass(o.bodyErr)
+	for _, r := range o.again {
+		switch {
+		case r.n > 0:
+			return "more bytes delivered"
+		case r.err == nil:
+			return "(0, nil)"
+		case c35ErrClass(r.err) != first:
+			return "a different error"
+		}
+	}
+	return "the same error again, no bytes"
 }
 
 func c35StreamCode(err error) (uint64, bool) {
@@ -444,7 +522,7 @@ func c35Bubble(c *vx.Ctx, o *c35Obs, f func(t *testing.T)) {
 
 // c35RunServerStream plays b (+FIN) on a fresh request stream of a fresh real
 // server connection.
-func c35RunServerStream(c *vx.Ctx, b []byte, bytewise, tail bool) *c35Obs {
+func c35RunServerStream(c *vx.Ctx, b []byte, x c35StreamCase) *c35Obs {
 	o := &c35Obs{}
 	c35Bubble(c, o, func(t *testing.T) {
 		var mu sync.Mutex
@@ -458,7 +536,7 @@ func c35RunServerStream(c *vx.Ctx, b []byte, bytewise, tail bool) *c35Obs {
 					o.panicked = fmt.Sprintf("%v\n%s", r, debug.Stack())
 				}
 			}()
-			c35ReadBody(r.Body, o)
+			c35ReadBody(r.Body, o, x.After, len(x.Seq)+1)
 		}))
 		tc := ts.connect()
 		tc.greet()
@@ -467,7 +545,7 @@ func c35RunServerStream(c *vx.Ctx, b []byte, bytewise, tail bool) *c35Obs {
 			o.harnessErr = "NewStream: " + err.Error()
 			return
 		}
-		if err := c35Write(qs, b, bytewise, tail); err != nil {
+		if err := c35Write(qs, b, x.Bytewise, x.Tail); err != nil {
 			o.harnessErr = "write: " + err.Error()
 			return
 		}
@@ -481,7 +559,7 @@ func c35RunServerStream(c *vx.Ctx, b []byte, bytewise, tail bool) *c35Obs {
 
 // c35RunClientStream starts a real RoundTrip on a fresh real client
 // connection and plays b (+FIN) as the response stream.
-func c35RunClientStream(c *vx.Ctx, b []byte, bytewise, tail bool) *c35Obs {
+func c35RunClientStream(c *vx.Ctx, b []byte, x c35StreamCase) *c35Obs {
 	o := &c35Obs{}
 	c35Bubble(c, o, func(t *testing.T) {
 		tc := newTestClientConn(t)
@@ -501,7 +579,7 @@ func c35RunClientStream(c *vx.Ctx, b []byte, bytewise, tail bool) *c35Obs {
 				return
 			}
 			o.msg = true
-			c35ReadBody(resp.Body, o)
+			c35ReadBody(resp.Body, o, x.After, len(x.Seq)+1)
 			resp.Body.Close()
 		}()
 		synctest.Wait()
@@ -511,7 +589,7 @@ func c35RunClientStream(c *vx.Ctx, b []byte, bytewise, tail bool) *c35Obs {
 		}
 		st := tc.streams[streamTypeRequest][0]
 		qs := st.stream.stream
-		if err := c35Write(qs, b, bytewise, tail); err != nil {
+		if err := c35Write(qs, b, x.Bytewise, x.Tail); err != nil {
 			o.harnessErr = "write: " + err.Error()
 			return
 		}
@@ -540,10 +618,10 @@ func c35CheckStream(w *vx.W, x c35StreamCase) {
 	var o *c35Obs
 	head := c35ReqSection
 	if x.Side == "server" {
-		o = c35RunServerStream(c, b, x.Bytewise, x.Tail)
+		o = c35RunServerStream(c, b, x)
 	} else {
 		head = c35RespSection
-		o = c35RunClientStream(c, b, x.Bytewise, x.Tail)
+		o = c35RunClientStream(c, b, x)
 	}
 	if o.harnessErr != "" {
 		c.T.Fatalf("C35 harness error on %+v: %s", x, o.harnessErr)
@@ -554,6 +632,9 @@ func c35CheckStream(w *vx.W, x c35StreamCase) {
 		mode = "one packet per byte"
 	} else if x.Tail {
 		mode = "last byte together with FIN"
+	}
+	if len(x.After) > 0 {
+		mode += fmt.Sprintf("; the application issues %d more Reads after the first error, buffer sizes %v in turn", len(x.Seq)+1, x.After)
 	}
 	desc := fmt.Sprintf("%s under test, peer sends %x then FIN (frames %v, fin at %d of %d, %s)", x.Side, b, x.Seq, x.Fin, len(all), mode)
 	obs := fmt.Sprintf("message accepted=%v body=%x bodyErr=%v roundTripErr=%v peer stream read=%s conn=%s", o.msg, o.body, o.bodyErr, o.rtErr, c35ErrClass(o.peerErr), c35ErrClass(o.connErr))
@@ -573,6 +654,19 @@ func c35CheckStream(w *vx.W, x c35StreamCase) {
 	if !bytes.HasPrefix(c35AllDataBytes(b), o.body) {
 		w.Failf(pre+"body/foreign-bytes", "%s: body reader delivered %x, which is not a prefix of the DATA payload bytes %x; %s", desc, o.body, c35AllDataBytes(b), obs)
 		return
+	}
+	// The same bound over ALL bytes the body ever returned: whatever Reads
+	// issued after an error hand out must still be DATA payload bytes in
+	// stream order. (The property does not say that the error is repeated, nor
+	// that nothing more is delivered; neither is judged.)
+	if len(o.afterBody) > 0 {
+		if ever := append(append([]byte(nil), o.body...), o.afterBody...); !c35IsSubsequence(ever, c35AllDataBytes(b)) {
+			w.Failf(pre+"body/foreign-bytes:read-after-error", "%s: after Body.Read had returned %x and the error %v, further Reads returned %s, i.e. the bytes %x, which are not DATA payload bytes of the stream (DATA payload bytes: %x); %s", desc, o.body, o.bodyErr, c35AgainString(o.again), o.afterBody, c35AllDataBytes(b), obs)
+			return
+		}
+	}
+	if len(o.again) > 0 {
+		w.Outcome("reads after the first body error: " + c35AgainClass(o))
 	}
 	exps := c35RefStream(b, head)
 	var firstMiss string
@@ -854,13 +948,23 @@ func TestVerif_C35(t *testing.T) {
 		c.Assume("left open (recorded as outcomes, not judged): the error code used to refuse a message that does not start with HEADERS or contains a forbidden frame, HTTP/2-reserved frame types (skip or refuse), a frame *header* cut by FIN, FIN on a control stream, which of H3_FRAME_ERROR-carrying places reports a truncation (body Read error, RoundTrip error, stream reset code, connection close code all count)")
 		c.Assume("the QUIC layer delivers stream bytes and FIN faithfully (C19/C20); the in-memory network is loss-free")
 
-		alphaQuick := []string{"H", "T", "D0", "D1", "D5", "U21", "Ubig", "S", "G", "P", "R2", "R9"}
+		alphaQuick := []string{"H", "T", "Tx", "D0", "D1", "D5", "U21", "Ubig", "S", "G", "P", "R2", "R9"}
 		unknownQuick := []string{"U21", "Ubig"}
 		alpha := vx.Pick(c,
 			alphaQuick,
-			[]string{"H", "T", "D0", "D1", "D5", "U21", "U40", "Ubig", "S", "G", "C", "P", "M", "R2", "R6", "R8", "R9"})
+			[]string{"H", "T", "Tx", "D0", "D1", "D5", "U21", "U40", "Ubig", "S", "G", "C", "P", "M", "R2", "R6", "R8", "R9"})
 		unknown := vx.Pick(c, []string{"U21", "Ubig"}, []string{"U21", "U40", "Ubig"})
 		maxLen := vx.Pick(c, 3, 4)
+		// Read-after-error schedules: every pair of buffer sizes from {1 (not
+		// larger than any non-empty remainder of a frame), 16 (larger than
+		// every frame payload of the alphabet)}; the reads up to the first
+		// error use 3.
+		var afterSchedules [][]int
+		for _, a := range []int{1, 16} {
+			for _, b := range []int{1, 16} {
+				afterSchedules = append(afterSchedules, []int{a, b})
+			}
+		}
 		genStream := func(yield func(c35StreamCase) bool) {
 			for _, side := range []string{"server", "client"} {
 				emitSeq := func(seq []string) bool {
@@ -870,10 +974,20 @@ func TestVerif_C35(t *testing.T) {
 						}
 						x := c35StreamCase{Side: side, Seq: seq, Len8: len8}
 						n := len(x.bytes())
+						headEnd := x.headEnd()
 						for fin := 0; fin <= n; fin++ {
 							x.Fin = fin
 							if !yield(x) {
 								return false
+							}
+							if headEnd >= 0 && fin >= headEnd {
+								for _, a := range afterSchedules {
+									y := x
+									y.After = a
+									if !yield(y) {
+										return false
+									}
+								}
 							}
 							if len(seq) <= 2 && !len8 {
 								y := x
